@@ -99,6 +99,20 @@ pub(crate) mod v_socket_tcp {
                 || matches!(s.state, State::SynSent | State::SynReceived | State::FinWait1 | State::Closing | State::LastAck))
     }
 
+    /// C02's finite-deadline invariant L1: whenever sequence space is unacknowledged or unsent, the socket
+    /// reports a finite next-poll deadline.  Evaluated with the real `poll_at`; the one-shot "acquire a
+    /// timestamp" answer (`remote_last_ts == None` => Now) is looked through, because it disappears at
+    /// the very next dispatch without anything being sent.
+    fn deadline_finite(s: &mut Socket, cx: &mut Context) -> bool {
+        let saved = s.remote_last_ts;
+        if saved.is_none() {
+            s.remote_last_ts = Some(cx.now());
+        }
+        let r = s.poll_at(cx) != PollAt::Ingress;
+        s.remote_last_ts = saved;
+        r
+    }
+
     /// Fill `s` (freshly built by Socket::new over RX/TX-byte rings) with an arbitrary
     /// synchronized-state INV_tcp state.  `rxs`/`txs` contents were chosen by the caller.
     pub(super) fn any_sync_socket(s: &mut Socket, now: i64, app: [u8; TX], with_reno: bool) -> Ghost {
@@ -211,7 +225,7 @@ pub(crate) mod v_socket_tcp {
         let rxread = any_lt(RX);
         kani::assume(rxlen <= r);
         // G1: everything the socket could still accept lies inside the ghost universe
-        kani::assume(r + (RX - rxlen) <= U);
+        kani::assume(r + 1 + (RX - rxlen) <= U);
         s.rx_buffer.verif_set(rxread, rxlen);
         let fin_rcvd = is_post_fin(state); // F1
         s.rx_fin_received = fin_rcvd;
@@ -396,31 +410,31 @@ pub(crate) mod v_socket_tcp {
 
     /// post-state representation invariant, clause by clause (labels `inv:`)
     fn assert_inv_post(s: &Socket, g: &Ghost) {
-        assert!(s.rx_buffer.verif_inv() && s.tx_buffer.verif_inv(), "inv:R1_rings_well_formed");
-        assert!(s.assembler.verif_inv(), "inv:R2_assembler_canonical");
-        assert!(s.assembler.verif_total() <= s.rx_buffer.window(), "inv:R2_assembler_within_window");
+        crate::vassert!(s.rx_buffer.verif_inv() && s.tx_buffer.verif_inv(), "inv:R1_rings_well_formed");
+        crate::vassert!(s.assembler.verif_inv(), "inv:R2_assembler_canonical");
+        crate::vassert!(s.assembler.verif_total() <= s.rx_buffer.window(), "inv:R2_assembler_within_window");
         if s.state != State::Closed && s.state != State::Listen {
-            assert!(s.tuple.is_some(), "inv:R3_tuple_present");
-            assert!(s.rx_fin_received == is_post_fin(s.state), "inv:F1_fin_flag_matches_state");
+            crate::vassert!(s.tuple.is_some(), "inv:R3_tuple_present");
+            crate::vassert!(s.rx_fin_received == is_post_fin(s.state), "inv:F1_fin_flag_matches_state");
             if s.rx_fin_received {
-                assert!(s.assembler.is_empty(), "inv:F1_no_out_of_order_data_after_fin");
+                crate::vassert!(s.assembler.is_empty(), "inv:F1_no_out_of_order_data_after_fin");
             }
             let fl = sd(s.remote_last_seq, s.local_seq_no);
             let extra = (s.state == State::SynReceived || s.state == State::SynSent) as i32 + is_fin_state(s.state) as i32;
-            assert!(fl >= 0 && fl <= s.tx_buffer.len() as i32 + extra, "inv:S1_flight_within_queue");
+            crate::vassert!(fl >= 0 && fl <= s.tx_buffer.len() as i32 + extra, "inv:S1_flight_within_queue");
             if matches!(s.state, State::FinWait2 | State::TimeWait) {
-                assert!(s.tx_buffer.is_empty(), "inv:S1_nothing_queued_after_fin_acked");
+                crate::vassert!(s.tx_buffer.is_empty(), "inv:S1_nothing_queued_after_fin_acked");
             }
-            assert!(s.remote_mss >= 48, "inv:S2_mss_floor");
-            assert!(matches!(s.timer, Timer::Close { .. }) == (s.state == State::TimeWait), "inv:T0_close_timer_iff_time_wait");
-            assert!(s.rtte.rto >= RTTE_MIN_RTO && s.rtte.rto <= RTTE_MAX_RTO && s.rtte.rto_count < 3, "inv:T0_rto_bounds");
+            crate::vassert!(s.remote_mss >= 48, "inv:S2_mss_floor");
+            crate::vassert!(matches!(s.timer, Timer::Close { .. }) == (s.state == State::TimeWait), "inv:T0_close_timer_iff_time_wait");
+            crate::vassert!(s.rtte.rto >= RTTE_MIN_RTO && s.rtte.rto <= RTTE_MAX_RTO && s.rtte.rto_count < 3, "inv:T0_rto_bounds");
             if let Some(a) = s.remote_last_ack {
                 let nxt = sadd(s.remote_seq_no, s.rx_buffer.len());
                 let lag = sd(nxt, a);
-                assert!(lag >= 0, "inv:A1_last_ack_not_beyond_rcv_nxt");
+                crate::vassert!(lag >= 0, "inv:A1_last_ack_not_beyond_rcv_nxt");
                 let wnd = ((s.remote_last_win as usize) << s.remote_win_shift) as i32 - lag;
-                assert!(wnd >= -(s.rx_fin_received as i32), "inv:A2_advertised_edge_not_left_of_rcv_nxt");
-                assert!(wnd <= s.rx_buffer.window() as i32, "inv:A2_advertised_edge_within_buffer");
+                crate::vassert!(wnd >= -(s.rx_fin_received as i32), "inv:A2_advertised_edge_not_left_of_rcv_nxt");
+                crate::vassert!(wnd <= s.rx_buffer.window() as i32, "inv:A2_advertised_edge_within_buffer");
             }
         }
     }
@@ -435,7 +449,7 @@ pub(crate) mod v_socket_tcp {
         let mut s = Socket::new(SocketBuffer::new(&mut rxs[..]), SocketBuffer::new(&mut txs[..]));
         let g = any_sync_socket(&mut s, now, app, with_reno);
         // L1 holds before the step (it is an invariant; asserted on every post-state)
-        kani::assume(!pending(&s) || s.poll_at(cx) != PollAt::Ingress);
+        kani::assume(!pending(&s) || deadline_finite(&mut s, cx));
 
         let sb = any_peer_segment(&g);
         let repr = seg_repr(&sb);
@@ -454,46 +468,46 @@ pub(crate) mod v_socket_tcp {
         crate::vdump!("POST {:?}", s);
 
         // ---- C17: only RFC edges, each with its prescribed cause
-        assert!(edge_allowed(g.state, post), "prop:c17_edge_in_rfc_diagram");
+        crate::vassert!(edge_allowed(g.state, post), "prop:c17_edge_in_rfc_diagram");
         let ack_is = |n: usize| sb.ack.map(|a| a.0 == g.una.0.wrapping_add(n as i32)).unwrap_or(false);
         let ctl = if sb.control == TcpControl::Psh { TcpControl::None } else { sb.control };
         let our_fin_seq = g.txlen + 1; // ack number acknowledging our FIN, relative to SND.UNA (no SYN pending in FIN states)
         if post != g.state {
             match (g.state, post) {
                 (State::SynReceived, State::Established) => {
-                    assert!(ack_is(1) && ctl != TcpControl::Rst && ctl != TcpControl::Syn, "prop:c17_established_only_by_ack_of_own_isn");
+                    crate::vassert!(ack_is(1) && ctl != TcpControl::Rst && ctl != TcpControl::Syn, "prop:c17_established_only_by_ack_of_own_isn");
                 }
                 (State::SynReceived, State::CloseWait) => {
-                    assert!(ack_is(1) && ctl == TcpControl::Fin, "prop:c17_close_wait_only_by_in_order_fin");
+                    crate::vassert!(ack_is(1) && ctl == TcpControl::Fin, "prop:c17_close_wait_only_by_in_order_fin");
                 }
                 (State::SynReceived, State::Listen) => {
-                    assert!(ctl == TcpControl::Rst && s.listen_endpoint.port != 0, "prop:c17_listen_return_only_by_rst_of_listener");
+                    crate::vassert!(ctl == TcpControl::Rst && s.listen_endpoint.port != 0, "prop:c17_listen_return_only_by_rst_of_listener");
                 }
                 (_, State::Closed) => {
                     if g.state == State::LastAck && ctl != TcpControl::Rst {
-                        assert!(ack_is(our_fin_seq), "prop:c17_closed_from_last_ack_only_by_ack_of_own_fin");
+                        crate::vassert!(ack_is(our_fin_seq), "prop:c17_closed_from_last_ack_only_by_ack_of_own_fin");
                     } else {
-                        assert!(ctl == TcpControl::Rst, "prop:c17_only_rst_resets_connection");
+                        crate::vassert!(ctl == TcpControl::Rst, "prop:c17_only_rst_resets_connection");
                     }
                 }
                 (State::Established, State::CloseWait) | (State::FinWait2, State::TimeWait) => {
-                    assert!(ctl == TcpControl::Fin, "prop:c17_close_wait_only_by_in_order_fin");
+                    crate::vassert!(ctl == TcpControl::Fin, "prop:c17_close_wait_only_by_in_order_fin");
                 }
                 (State::FinWait1, State::FinWait2) => {
                     // (a FIN that cannot be taken yet because of a hole counts as a plain ACK)
-                    assert!(ctl != TcpControl::Rst && ctl != TcpControl::Syn && ack_is(our_fin_seq), "prop:c17_fin_wait_2_only_by_ack_of_own_fin");
+                    crate::vassert!(ctl != TcpControl::Rst && ctl != TcpControl::Syn && ack_is(our_fin_seq), "prop:c17_fin_wait_2_only_by_ack_of_own_fin");
                 }
                 (State::FinWait1, State::Closing) => {
-                    assert!(ctl == TcpControl::Fin && !ack_is(our_fin_seq), "prop:c17_closing_only_by_in_order_fin");
+                    crate::vassert!(ctl == TcpControl::Fin && !ack_is(our_fin_seq), "prop:c17_closing_only_by_in_order_fin");
                 }
                 (State::FinWait1, State::TimeWait) => {
-                    assert!(ctl == TcpControl::Fin && ack_is(our_fin_seq), "prop:c17_time_wait_only_when_both_fins_done");
+                    crate::vassert!(ctl == TcpControl::Fin && ack_is(our_fin_seq), "prop:c17_time_wait_only_when_both_fins_done");
                 }
                 (State::Closing, State::TimeWait) => {
-                    assert!(ctl != TcpControl::Rst && ctl != TcpControl::Syn && ack_is(our_fin_seq), "prop:c17_time_wait_only_when_both_fins_done");
+                    crate::vassert!(ctl != TcpControl::Rst && ctl != TcpControl::Syn && ack_is(our_fin_seq), "prop:c17_time_wait_only_when_both_fins_done");
                 }
                 _ => {
-                    assert!(false, "prop:c17_segment_cannot_cause_this_edge");
+                    crate::vassert!(false, "prop:c17_segment_cannot_cause_this_edge");
                 }
             }
             // RST acts only when in window: RCV.NXT <= seq < RCV.NXT + advertised window (or seq = RCV.NXT for a zero window)
@@ -506,7 +520,7 @@ pub(crate) mod v_socket_tcp {
                 } else {
                     g.wnd > 0 && ((off >= 0 && off < g.wnd) || (end > 0 && end <= g.wnd))
                 };
-                assert!(ok, "prop:c17_only_in_window_rst_resets");
+                crate::vassert!(ok, "prop:c17_only_in_window_rst_resets");
             }
         }
 
@@ -515,35 +529,35 @@ pub(crate) mod v_socket_tcp {
             let new_len = s.rx_buffer.len();
             let new_nxt = sadd(s.remote_seq_no, new_len);
             let adv = sd(new_nxt, pre_nxt);
-            assert!(adv >= 0 && adv <= RX as i32 + 1, "prop:c04_rcv_nxt_monotone_and_bounded");
+            crate::vassert!(adv >= 0 && adv <= RX as i32 + 1, "prop:c04_rcv_nxt_monotone_and_bounded");
             let fin_now = s.rx_fin_received;
-            assert!(fin_now || !g.fin_rcvd, "prop:c04_fin_flag_never_retracted");
+            crate::vassert!(fin_now || !g.fin_rcvd, "prop:c04_fin_flag_never_retracted");
             let fin_step = (fin_now && !g.fin_rcvd) as i32;
             let data_adv = (adv - fin_step) as usize;
-            assert!(adv >= fin_step, "prop:c04_fin_consumes_one_sequence_number");
-            assert!(g.r + data_adv <= g.fin_at, "prop:c04_never_accepts_data_beyond_peer_fin");
+            crate::vassert!(adv >= fin_step, "prop:c04_fin_consumes_one_sequence_number");
+            crate::vassert!(g.r + data_adv <= g.fin_at, "prop:c04_never_accepts_data_beyond_peer_fin");
             if fin_now {
-                assert!(g.r + data_adv == g.fin_at, "prop:c01_fin_only_after_every_preceding_byte");
-                assert!(fin_step == 0 || ctl == TcpControl::Fin, "prop:c17_fin_flag_only_from_fin_segment");
+                crate::vassert!(g.r + data_adv == g.fin_at, "prop:c01_fin_only_after_every_preceding_byte");
+                crate::vassert!(fin_step == 0 || ctl == TcpControl::Fin, "prop:c17_fin_flag_only_from_fin_segment");
             }
-            assert!(new_len <= g.rxlen + data_adv, "prop:c04_buffer_grows_only_by_accepted_bytes");
+            crate::vassert!(new_len <= g.rxlen + data_adv, "prop:c04_buffer_grows_only_by_accepted_bytes");
             // ---- byte exactness of everything the application can read
             if new_len > 0 {
                 let k = any_lt(RX);
                 kani::assume(k < new_len);
                 let got = s.rx_buffer.get_allocated(k, 1);
-                assert!(got.len() == 1, "prop:c04_queued_byte_readable");
+                crate::vassert!(got.len() == 1, "prop:c04_queued_byte_readable");
                 let pos = g.r + data_adv - new_len + k;
-                assert!(got[0] == g.stream[pos], "prop:c01_rx_bytes_equal_peer_stream");
+                crate::vassert!(got[0] == g.stream[pos], "prop:c01_rx_bytes_equal_peer_stream");
             }
             // ---- out-of-order bytes recorded in the assembler equal the peer's bytes there
             {
                 let j = any_lt(RX);
                 if s.assembler.verif_present(j) {
                     let w = s.rx_buffer.get_unallocated(j, 1);
-                    assert!(w.len() == 1, "prop:c04_recorded_range_inside_buffer");
-                    assert!(g.r + data_adv + j < g.fin_at, "prop:c04_never_accepts_data_beyond_peer_fin");
-                    assert!(w[0] == g.stream[g.r + data_adv + j], "prop:c04_out_of_order_bytes_equal_peer_stream");
+                    crate::vassert!(w.len() == 1, "prop:c04_recorded_range_inside_buffer");
+                    crate::vassert!(g.r + data_adv + j < g.fin_at, "prop:c04_never_accepts_data_beyond_peer_fin");
+                    crate::vassert!(w[0] == g.stream[g.r + data_adv + j], "prop:c04_out_of_order_bytes_equal_peer_stream");
                 }
             }
             // ---- nothing beyond the advertised window is accepted (offset o from the old RCV.NXT)
@@ -552,43 +566,43 @@ pub(crate) mod v_socket_tcp {
                 let was = pre_asm.verif_present(o);
                 let is = if o < data_adv { true } else { s.assembler.verif_present(o - data_adv) };
                 if is && !was {
-                    assert!((o as i32) < g.wnd, "prop:c04_no_byte_accepted_beyond_advertised_window");
+                    crate::vassert!((o as i32) < g.wnd, "prop:c04_no_byte_accepted_beyond_advertised_window");
                 }
                 if was {
-                    assert!(is, "prop:c04_recorded_bytes_never_dropped");
+                    crate::vassert!(is, "prop:c04_recorded_bytes_never_dropped");
                 }
             }
             // ---- ACK never lies
             if let Some((_, rr)) = &reply {
                 if rr.control != TcpControl::Rst {
-                    assert!(rr.ack_number == Some(new_nxt), "prop:c04_ack_is_exactly_rcv_nxt");
-                    assert!(rr.payload.is_empty() && rr.control == TcpControl::None, "prop:c05_ack_reply_carries_no_data");
-                    assert!(rr.window_len as usize == s.rx_buffer.window(), "prop:c05_reply_window_is_free_space");
+                    crate::vassert!(rr.ack_number == Some(new_nxt), "prop:c04_ack_is_exactly_rcv_nxt");
+                    crate::vassert!(rr.payload.is_empty() && rr.control == TcpControl::None, "prop:c05_ack_reply_carries_no_data");
+                    crate::vassert!(rr.window_len as usize == s.rx_buffer.window(), "prop:c05_reply_window_is_free_space");
                 }
             }
             // ---- A: acknowledged bytes leave the tx queue, the rest keeps its place
             let new_txlen = s.tx_buffer.len();
-            assert!(new_txlen <= g.txlen, "prop:c01_process_never_queues_tx_data");
+            crate::vassert!(new_txlen <= g.txlen, "prop:c01_process_never_queues_tx_data");
             let acked = g.txlen - new_txlen;
             if new_txlen > 0 {
                 let k = any_lt(TX);
                 kani::assume(k < new_txlen);
                 let b = s.tx_buffer.get_allocated(k, 1);
-                assert!(b.len() == 1 && b[0] == g.app[(g.txread + acked + k) % TX], "prop:c01_unacked_tx_bytes_keep_place");
+                crate::vassert!(b.len() == 1 && b[0] == g.app[(g.txread + acked + k) % TX], "prop:c01_unacked_tx_bytes_keep_place");
                 let syn_now = (post == State::SynReceived) as i32;
                 let moved = sd(s.local_seq_no, g.una) + syn_now - g.syn_unacked as i32;
-                assert!(moved == acked as i32, "prop:c01_snd_una_tracks_tx_queue");
+                crate::vassert!(moved == acked as i32, "prop:c01_snd_una_tracks_tx_queue");
             }
             // ---- C02 L1: unacknowledged sequence space => finite deadline
             if pending(&s) {
-                assert!(s.poll_at(cx) != PollAt::Ingress, "prop:c02_pending_data_has_finite_deadline");
+                crate::vassert!(deadline_finite(&mut s, cx), "prop:c02_pending_data_has_finite_deadline");
             }
         }
         // a reply to a reset is never sent; replies go back to the sender
         if let Some((ipr, rr)) = &reply {
-            assert!(sb.control != TcpControl::Rst, "prop:c11_no_reply_to_rst");
-            assert!(ipr.src_addr() == IpAddress::Ipv4(LOCAL) && ipr.dst_addr() == IpAddress::Ipv4(REMOTE), "prop:c10_reply_addresses");
-            assert!(rr.src_port == LPORT && rr.dst_port == RPORT, "prop:c10_reply_ports");
+            crate::vassert!(sb.control != TcpControl::Rst, "prop:c11_no_reply_to_rst");
+            crate::vassert!(ipr.src_addr() == IpAddress::Ipv4(LOCAL) && ipr.dst_addr() == IpAddress::Ipv4(REMOTE), "prop:c10_reply_addresses");
+            crate::vassert!(rr.src_port == LPORT && rr.dst_port == RPORT, "prop:c10_reply_ports");
         }
         assert_inv_post(&s, &g);
 
@@ -614,7 +628,7 @@ pub(crate) mod v_socket_tcp {
         let app = txs;
         let mut s = Socket::new(SocketBuffer::new(&mut rxs[..]), SocketBuffer::new(&mut txs[..]));
         let g = any_sync_socket(&mut s, now, app, with_reno);
-        kani::assume(!pending(&s) || s.poll_at(cx) != PollAt::Ingress);
+        kani::assume(!pending(&s) || deadline_finite(&mut s, cx));
 
         let nowi = Instant::from_millis(now);
         crate::vdump!("PRE now={} {:?}", now, s);
@@ -665,84 +679,84 @@ pub(crate) mod v_socket_tcp {
             }
             if emit_ok { Ok(()) } else { Err(()) }
         });
-        assert!(res.is_ok() == (emit_ok || !seen), "prop:c09_emit_error_passed_through");
+        crate::vassert!(res.is_ok() == (emit_ok || !seen), "prop:c09_emit_error_passed_through");
         let post = s.state;
         crate::vdump!("EMIT seen={} ok={} seq={} len={} ctl={:?} ack={:?} win={} | ghost una={} inflight={} txlen={} txread={}", seen, emit_ok, e_seq, e_len, e_ctl, e_ack, e_win, g.una, g.inflight, g.txlen, g.txread);
         crate::vdump!("POST {:?}", s);
 
         // ---- C17: dispatch changes state only by timeout (-> CLOSED) or TIME-WAIT expiry
         if post != g.state {
-            assert!(post == State::Closed, "prop:c17_dispatch_only_closes");
+            crate::vassert!(post == State::Closed, "prop:c17_dispatch_only_closes");
             if g.state == State::TimeWait && !pre_timed_out {
-                assert!(pre_close, "prop:c17_time_wait_ends_only_after_its_timer");
+                crate::vassert!(pre_close, "prop:c17_time_wait_ends_only_after_its_timer");
             } else {
-                assert!(pre_timed_out, "prop:c17_dispatch_closes_only_on_timeout");
+                crate::vassert!(pre_timed_out, "prop:c17_dispatch_closes_only_on_timeout");
             }
         }
         if g.state == State::TimeWait && pre_close && !pre_timed_out && !seen {
-            assert!(post == State::Closed, "prop:c17_time_wait_ends_at_its_timer");
+            crate::vassert!(post == State::Closed, "prop:c17_time_wait_ends_at_its_timer");
         }
 
         if seen {
-            assert!(e_src_ok, "prop:c10_segment_addresses_and_length");
+            crate::vassert!(e_src_ok, "prop:c10_segment_addresses_and_length");
             if e_ctl == TcpControl::Rst {
-                assert!(post == State::Closed, "prop:c17_rst_only_when_aborting");
+                crate::vassert!(post == State::Closed, "prop:c17_rst_only_when_aborting");
             } else {
                 // (ii) size limits
-                assert!(e_len <= pre_mss, "prop:c05_payload_within_peer_mss");
-                assert!(e_iplen <= ip_mtu, "prop:c05_segment_within_mtu");
+                crate::vassert!(e_len <= pre_mss, "prop:c05_payload_within_peer_mss");
+                crate::vassert!(e_iplen <= ip_mtu, "prop:c05_segment_within_mtu");
                 let off = sd(e_seq, g.una);
                 // keep-alive: one garbage byte 0 just below SND.NXT, no state change (RFC 1122 4.2.3.6)
                 let is_ka = e_len == 1 && e_bytes[0] == 0 && e_ctl == TcpControl::None && sd(e_seq, s.remote_last_seq) == -1;
                 if e_len > 0 && !is_ka {
-                    assert!(off >= 0, "prop:c05_never_sends_below_snd_una");
+                    crate::vassert!(off >= 0, "prop:c05_never_sends_below_snd_una");
                     let off = off as usize - g.syn_unacked as usize;
                     // the one-byte zero-window probe: the next unsent byte, sent only when the window is closed
                     let probe = pre_zwp && e_len == 1 && off == g.inflight && pre_win <= g.inflight;
                     if !probe {
                         // (i) inside the window learned from the peer
-                        assert!(off + e_len <= pre_win, "prop:c05_data_within_peer_window");
+                        crate::vassert!(off + e_len <= pre_win, "prop:c05_data_within_peer_window");
                     }
-                    assert!(off + e_len <= g.txlen, "prop:c05_data_within_tx_queue");
+                    crate::vassert!(off + e_len <= g.txlen, "prop:c05_data_within_tx_queue");
                     // (iii) exactly the application's bytes, also when retransmitting
                     let i = any_lt(TX);
                     kani::assume(i < e_len);
-                    assert!(e_bytes[i] == g.app[(g.txread + off + i) % TX], "prop:c05_payload_equals_application_bytes");
+                    crate::vassert!(e_bytes[i] == g.app[(g.txread + off + i) % TX], "prop:c05_payload_equals_application_bytes");
                     // (iv) contiguous: new data starts at SND.NXT, retransmissions at SND.UNA
-                    assert!(off == g.inflight || off == 0, "prop:c05_data_starts_at_snd_nxt_or_snd_una");
+                    crate::vassert!(off == g.inflight || off == 0, "prop:c05_data_starts_at_snd_nxt_or_snd_una");
                 }
                 if e_ctl == TcpControl::Fin {
-                    assert!(g.fin_state, "prop:c05_fin_only_after_close");
+                    crate::vassert!(g.fin_state, "prop:c05_fin_only_after_close");
                     let off = sd(e_seq, g.una);
-                    assert!(off >= 0 && off as usize + e_len == g.txlen, "prop:c05_fin_only_after_all_queued_data");
+                    crate::vassert!(off >= 0 && off as usize + e_len == g.txlen, "prop:c05_fin_only_after_all_queued_data");
                 }
                 if e_ctl == TcpControl::Syn {
                     // (v) SYN segments carry an unscaled window and the MSS option
-                    assert!(g.state == State::SynReceived, "prop:c05_syn_only_during_handshake");
-                    assert!(e_len == 0 && sd(e_seq, g.una) == 0, "prop:c05_syn_at_iss");
-                    assert!(e_win as usize == core::cmp::min(pre_rxwin, 65535), "prop:c05_syn_window_unscaled");
-                    assert!(e_mss == Some((ip_mtu - 40) as u16), "prop:c05_syn_announces_mss_from_mtu");
+                    crate::vassert!(g.state == State::SynReceived, "prop:c05_syn_only_during_handshake");
+                    crate::vassert!(e_len == 0 && sd(e_seq, g.una) == 0, "prop:c05_syn_at_iss");
+                    crate::vassert!(e_win as usize == core::cmp::min(pre_rxwin, 65535), "prop:c05_syn_window_unscaled");
+                    crate::vassert!(e_mss == Some((ip_mtu - 40) as u16), "prop:c05_syn_announces_mss_from_mtu");
                 } else {
-                    assert!(e_win as usize == pre_rxwin >> s.remote_win_shift, "prop:c05_window_scaled_as_negotiated");
-                    assert!(e_mss.is_none() && e_wscale.is_none(), "prop:c05_handshake_options_only_on_syn");
+                    crate::vassert!(e_win as usize == pre_rxwin >> s.remote_win_shift, "prop:c05_window_scaled_as_negotiated");
+                    crate::vassert!(e_mss.is_none() && e_wscale.is_none(), "prop:c05_handshake_options_only_on_syn");
                 }
                 // C04 (iii): the ACK number is exactly RCV.NXT
-                assert!(e_ack == Some(pre_nxt), "prop:c04_ack_is_exactly_rcv_nxt");
+                crate::vassert!(e_ack == Some(pre_nxt), "prop:c04_ack_is_exactly_rcv_nxt");
             }
         }
         // nothing is altered in the queue by sending
         {
-            assert!(s.tx_buffer.len() == g.txlen || post == State::Closed, "prop:c05_dispatch_keeps_tx_queue");
+            crate::vassert!(s.tx_buffer.len() == g.txlen || post == State::Closed, "prop:c05_dispatch_keeps_tx_queue");
             if s.tx_buffer.len() == g.txlen && g.txlen > 0 {
                 let k = any_lt(TX);
                 kani::assume(k < g.txlen);
                 let b = s.tx_buffer.get_allocated(k, 1);
-                assert!(b.len() == 1 && b[0] == g.app[(g.txread + k) % TX], "prop:c05_dispatch_keeps_tx_queue");
+                crate::vassert!(b.len() == 1 && b[0] == g.app[(g.txread + k) % TX], "prop:c05_dispatch_keeps_tx_queue");
             }
         }
         if post != State::Closed && post != State::Listen {
             if pending(&s) {
-                assert!(s.poll_at(cx) != PollAt::Ingress, "prop:c02_pending_data_has_finite_deadline");
+                crate::vassert!(deadline_finite(&mut s, cx), "prop:c02_pending_data_has_finite_deadline");
             }
         }
         assert_inv_post(&s, &g);
@@ -826,43 +840,43 @@ pub(crate) mod v_socket_tcp {
             }
         }
         // exactly the next bytes of the peer's stream
-        assert!(got_n <= g.rxlen && got_n <= PL, "prop:c01_never_hands_out_more_than_queued");
+        crate::vassert!(got_n <= g.rxlen && got_n <= PL, "prop:c01_never_hands_out_more_than_queued");
         if got_n > 0 {
             let i = any_lt(PL);
             kani::assume(i < got_n);
-            assert!(buf[i] == g.stream[g.r - g.rxlen + i], "prop:c01_delivered_bytes_are_next_stream_bytes");
+            crate::vassert!(buf[i] == g.stream[g.r - g.rxlen + i], "prop:c01_delivered_bytes_are_next_stream_bytes");
         }
         if finished {
             // Finished only after the FIN, with nothing left to read: every byte before the FIN was delivered
-            assert!(g.fin_rcvd && g.rxlen == 0 && g.r == g.fin_at, "prop:c01_finished_only_after_all_bytes_delivered");
+            crate::vassert!(g.fin_rcvd && g.rxlen == 0 && g.r == g.fin_at, "prop:c01_finished_only_after_all_bytes_delivered");
         }
         if which == 0 && !finished && !err {
-            assert!(got_n == core::cmp::min(want, g.rxlen), "prop:c01_recv_slice_takes_all_available");
+            crate::vassert!(got_n == core::cmp::min(want, g.rxlen), "prop:c01_recv_slice_takes_all_available");
         }
         // consumption advances the stream position by exactly what was handed out; RCV.NXT is unchanged
         let new_len = s.rx_buffer.len();
-        assert!(sd(sadd(s.remote_seq_no, new_len), pre_nxt) == 0, "prop:c04_reading_does_not_move_rcv_nxt");
+        crate::vassert!(sd(sadd(s.remote_seq_no, new_len), pre_nxt) == 0, "prop:c04_reading_does_not_move_rcv_nxt");
         if consumed {
-            assert!(new_len == g.rxlen - got_n, "prop:c01_each_byte_delivered_once");
+            crate::vassert!(new_len == g.rxlen - got_n, "prop:c01_each_byte_delivered_once");
         } else {
-            assert!(new_len == g.rxlen, "prop:c01_peek_consumes_nothing");
+            crate::vassert!(new_len == g.rxlen, "prop:c01_peek_consumes_nothing");
         }
         if new_len > 0 {
             let k = any_lt(RX);
             kani::assume(k < new_len);
             let b = s.rx_buffer.get_allocated(k, 1);
-            assert!(b.len() == 1 && b[0] == g.stream[g.r - new_len + k], "prop:c01_rx_bytes_equal_peer_stream");
+            crate::vassert!(b.len() == 1 && b[0] == g.stream[g.r - new_len + k], "prop:c01_rx_bytes_equal_peer_stream");
         }
         {
             // out-of-order data keeps its place relative to RCV.NXT
             let j = any_lt(RX);
-            assert!(s.assembler.verif_present(j) == pre_asm.verif_present(j), "prop:c04_reading_keeps_out_of_order_ranges");
+            crate::vassert!(s.assembler.verif_present(j) == pre_asm.verif_present(j), "prop:c04_reading_keeps_out_of_order_ranges");
             if pre_asm.verif_present(j) {
                 let w = s.rx_buffer.get_unallocated(j, 1);
-                assert!(w.len() == 1 && w[0] == g.stream[g.r + j], "prop:c04_out_of_order_bytes_equal_peer_stream");
+                crate::vassert!(w.len() == 1 && w[0] == g.stream[g.r + j], "prop:c04_out_of_order_bytes_equal_peer_stream");
             }
         }
-        assert!(s.state == g.state, "prop:c17_reading_never_changes_state");
+        crate::vassert!(s.state == g.state, "prop:c17_reading_never_changes_state");
         kani::cover!(got_n >= 2 && consumed && new_len > 0, "partial read");
         kani::cover!(finished, "Finished reported");
         kani::cover!(got_n >= 1 && !pre_asm.is_empty(), "read with out-of-order data present");
@@ -878,7 +892,7 @@ pub(crate) mod v_socket_tcp {
         let app = txs;
         let mut s = Socket::new(SocketBuffer::new(&mut rxs[..]), SocketBuffer::new(&mut txs[..]));
         let g = any_sync_socket(&mut s, now, app, false);
-        kani::assume(!pending(&s) || s.poll_at(cx) != PollAt::Ingress);
+        kani::assume(!pending(&s) || deadline_finite(&mut s, cx));
         let data: [u8; PL] = kani::any();
         let dl = any_le(PL);
         let which: u8 = kani::any();
@@ -908,34 +922,34 @@ pub(crate) mod v_socket_tcp {
         }
         let post = s.state;
         if which <= 1 {
-            assert!(post == g.state, "prop:c17_writing_never_changes_state");
-            assert!(refused == !matches!(g.state, State::Established | State::CloseWait), "prop:c05_send_only_while_tx_half_open");
+            crate::vassert!(post == g.state, "prop:c17_writing_never_changes_state");
+            crate::vassert!(refused == !matches!(g.state, State::Established | State::CloseWait), "prop:c05_send_only_while_tx_half_open");
             if which == 0 && !refused {
-                assert!(wrote == core::cmp::min(dl, TX - g.txlen), "prop:c01_send_slice_accepts_all_that_fits");
+                crate::vassert!(wrote == core::cmp::min(dl, TX - g.txlen), "prop:c01_send_slice_accepts_all_that_fits");
             }
             // accepted bytes are appended unmodified behind what is queued
-            assert!(s.tx_buffer.len() == g.txlen + wrote, "prop:c01_accepted_bytes_are_queued_once");
+            crate::vassert!(s.tx_buffer.len() == g.txlen + wrote, "prop:c01_accepted_bytes_are_queued_once");
             if s.tx_buffer.len() > 0 {
                 let k = any_lt(TX);
                 kani::assume(k < s.tx_buffer.len());
                 let b = s.tx_buffer.get_allocated(k, 1);
                 let want = if k < g.txlen { g.app[(g.txread + k) % TX] } else { data[k - g.txlen] };
-                assert!(b.len() == 1 && b[0] == want, "prop:c01_tx_queue_is_written_stream");
+                crate::vassert!(b.len() == 1 && b[0] == want, "prop:c01_tx_queue_is_written_stream");
             }
-            assert!(s.local_seq_no == g.una && sd(s.remote_last_seq, g.una) == g.inflight as i32, "prop:c05_writing_does_not_move_sequence_numbers");
+            crate::vassert!(s.local_seq_no == g.una && sd(s.remote_last_seq, g.una) == g.inflight as i32, "prop:c05_writing_does_not_move_sequence_numbers");
         } else if which == 2 {
             let want = match g.state {
                 State::SynReceived | State::Established => State::FinWait1,
                 State::CloseWait => State::LastAck,
                 st => st,
             };
-            assert!(post == want, "prop:c17_close_follows_rfc_diagram");
-            assert!(s.tx_buffer.len() == g.txlen, "prop:c05_close_keeps_queued_data");
+            crate::vassert!(post == want, "prop:c17_close_follows_rfc_diagram");
+            crate::vassert!(s.tx_buffer.len() == g.txlen, "prop:c05_close_keeps_queued_data");
         } else {
-            assert!(post == State::Closed, "prop:c17_abort_closes");
+            crate::vassert!(post == State::Closed, "prop:c17_abort_closes");
         }
         if post != State::Closed && pending(&s) {
-            assert!(s.poll_at(cx) != PollAt::Ingress, "prop:c02_pending_data_has_finite_deadline");
+            crate::vassert!(deadline_finite(&mut s, cx), "prop:c02_pending_data_has_finite_deadline");
         }
         kani::cover!(wrote >= 2 && g.txlen > 0, "bytes appended behind queued data");
         kani::cover!(which == 2 && post == State::LastAck, "close in CLOSE-WAIT");
@@ -970,21 +984,21 @@ pub(crate) mod v_socket_tcp {
         });
         if early {
             // polling before the deadline transmits nothing and changes no protocol state
-            assert!(!seen, "prop:c13_nothing_sent_before_poll_at");
-            assert!(s.state == g.state, "prop:c13_no_state_change_before_poll_at");
-            assert!(s.local_seq_no == g.una && sd(s.remote_last_seq, g.una) == g.inflight as i32, "prop:c13_no_sequence_change_before_poll_at");
+            crate::vassert!(!seen, "prop:c13_nothing_sent_before_poll_at");
+            crate::vassert!(s.state == g.state, "prop:c13_no_state_change_before_poll_at");
+            crate::vassert!(s.local_seq_no == g.una && sd(s.remote_last_seq, g.una) == g.inflight as i32, "prop:c13_no_sequence_change_before_poll_at");
         }
         if !seen && s.state == g.state {
             // non-spinning: a poll that sent nothing leaves a deadline strictly in the future, or none
             match s.poll_at(cx) {
-                PollAt::Now => assert!(false, "prop:c13_idle_poll_leaves_future_deadline"),
-                PollAt::Time(t) => assert!(t > nowi, "prop:c13_idle_poll_leaves_future_deadline"),
+                PollAt::Now => crate::vassert!(false, "prop:c13_idle_poll_leaves_future_deadline"),
+                PollAt::Time(t) => crate::vassert!(t > nowi, "prop:c13_idle_poll_leaves_future_deadline"),
                 PollAt::Ingress => {}
             }
         }
         if !early && pending(&s) && s.state == g.state {
             // C02 L2 (safety core): at or after the deadline something observable happens or a later finite deadline is armed
-            assert!(seen || s.poll_at(cx) != PollAt::Ingress, "prop:c02_deadline_leads_to_transmission_or_new_deadline");
+            crate::vassert!(seen || s.poll_at(cx) != PollAt::Ingress, "prop:c02_deadline_leads_to_transmission_or_new_deadline");
         }
         kani::cover!(early && matches!(d, PollAt::Time(_)), "polled before a timed deadline");
         kani::cover!(!early && seen && e_seglen > 0, "deadline reached: sequence space (re)transmitted");
@@ -1005,9 +1019,9 @@ pub(crate) mod v_socket_tcp {
         let mut rxs = [0u8; RX];
         let mut txs = [0u8; TX];
         let mut s = fresh(&mut rxs[..], &mut txs[..]);
-        assert!(s.state == State::Closed, "prop:c17_new_socket_closed");
+        crate::vassert!(s.state == State::Closed, "prop:c17_new_socket_closed");
         s.listen(LPORT).unwrap();
-        assert!(s.state == State::Listen && !pending(&s), "prop:c17_listen_from_closed");
+        crate::vassert!(s.state == State::Listen && !pending(&s), "prop:c17_listen_from_closed");
         let g = Ghost { base: 0, stream: [0; U], fin_at: U, r: 0, rxlen: 0, fin_rcvd: false, wnd: 0, app: [0; TX], txread: 0, txlen: 0,
                         inflight: 0, una: TcpSeqNumber(0), syn_unacked: false, fin_state: false, state: State::Listen, now };
         let mut sb = any_peer_segment(&g);
@@ -1017,15 +1031,15 @@ pub(crate) mod v_socket_tcp {
         if acc {
             let reply = s.process(cx, &ip_repr, &repr);
             if s.state != State::Listen {
-                assert!(s.state == State::SynReceived, "prop:c17_listen_leaves_only_to_syn_received");
-                assert!(sb.control == TcpControl::Syn && sb.ack.is_none(), "prop:c17_syn_received_only_by_syn_without_ack");
-                assert!(reply.is_none(), "prop:c17_syn_ack_sent_by_dispatch");
-                assert!(s.remote_seq_no == TcpSeqNumber(sb.seq.wrapping_add(1)), "prop:c04_stream_starts_right_after_syn");
-                assert!(s.rx_buffer.is_empty() && s.assembler.is_empty(), "prop:c04_no_data_accepted_from_syn");
+                crate::vassert!(s.state == State::SynReceived, "prop:c17_listen_leaves_only_to_syn_received");
+                crate::vassert!(sb.control == TcpControl::Syn && sb.ack.is_none(), "prop:c17_syn_received_only_by_syn_without_ack");
+                crate::vassert!(reply.is_none(), "prop:c17_syn_ack_sent_by_dispatch");
+                crate::vassert!(s.remote_seq_no == TcpSeqNumber(sb.seq.wrapping_add(1)), "prop:c04_stream_starts_right_after_syn");
+                crate::vassert!(s.rx_buffer.is_empty() && s.assembler.is_empty(), "prop:c04_no_data_accepted_from_syn");
                 let want_mss = match sb.mss { Some(0) | None => DEFAULT_MSS, Some(m) => core::cmp::max(m as usize, MIN_REMOTE_MSS) };
-                assert!(s.remote_mss == want_mss, "prop:c05_mss_negotiated_with_floor");
-                assert!(s.remote_win_scale == sb.wscale && s.remote_win_shift == 0, "prop:c05_window_scale_negotiated");
-                assert!(pending(&s) && s.poll_at(cx) != PollAt::Ingress, "prop:c02_pending_data_has_finite_deadline");
+                crate::vassert!(s.remote_mss == want_mss, "prop:c05_mss_negotiated_with_floor");
+                crate::vassert!(s.remote_win_scale == sb.wscale && s.remote_win_shift == 0, "prop:c05_window_scale_negotiated");
+                crate::vassert!(pending(&s) && deadline_finite(&mut s, cx), "prop:c02_pending_data_has_finite_deadline");
                 // the SYN-ACK
                 let mut seen = false;
                 let mut ok = false;
@@ -1038,10 +1052,10 @@ pub(crate) mod v_socket_tcp {
                         && r.window_scale == sb.wscale.map(|_| 0);
                     Ok(())
                 });
-                assert!(seen && ok, "prop:c05_syn_ack_well_formed");
-                assert!(s.state == State::SynReceived && s.poll_at(cx) != PollAt::Ingress, "prop:c02_pending_data_has_finite_deadline");
+                crate::vassert!(seen && ok, "prop:c05_syn_ack_well_formed");
+                crate::vassert!(s.state == State::SynReceived && deadline_finite(&mut s, cx), "prop:c02_pending_data_has_finite_deadline");
             } else {
-                assert!(s.tuple.is_none() && s.rx_buffer.is_empty(), "prop:c17_rejected_segment_leaves_listener_untouched");
+                crate::vassert!(s.tuple.is_none() && s.rx_buffer.is_empty(), "prop:c17_rejected_segment_leaves_listener_untouched");
             }
         }
         kani::cover!(acc && s.state == State::SynReceived && sb.mss == Some(10), "SYN with tiny MSS accepted");
@@ -1057,12 +1071,12 @@ pub(crate) mod v_socket_tcp {
         let mut txs = [0u8; TX];
         let mut s = fresh(&mut rxs[..], &mut txs[..]);
         s.connect(cx, (IpAddress::Ipv4(REMOTE), RPORT), LPORT).unwrap();
-        assert!(s.state == State::SynSent, "prop:c17_connect_from_closed");
+        crate::vassert!(s.state == State::SynSent, "prop:c17_connect_from_closed");
         // every ISS value
         let iss = TcpSeqNumber(kani::any());
         s.local_seq_no = iss;
         s.remote_last_seq = iss;
-        assert!(s.poll_at(cx) != PollAt::Ingress, "prop:c02_pending_data_has_finite_deadline");
+        crate::vassert!(deadline_finite(&mut s, cx), "prop:c02_pending_data_has_finite_deadline");
         let mut ok = false;
         let mtu = cx.ip_mtu();
         let _ = s.dispatch(cx, |_cx, (_ip, r)| -> Result<(), ()> {
@@ -1070,8 +1084,8 @@ pub(crate) mod v_socket_tcp {
                 && r.window_len as usize == RX && r.max_seg_size == Some((mtu - 40) as u16) && r.window_scale == Some(0);
             Ok(())
         });
-        assert!(ok, "prop:c05_syn_well_formed");
-        assert!(s.state == State::SynSent && s.poll_at(cx) != PollAt::Ingress, "prop:c02_pending_data_has_finite_deadline");
+        crate::vassert!(ok, "prop:c05_syn_well_formed");
+        crate::vassert!(s.state == State::SynSent && deadline_finite(&mut s, cx), "prop:c02_pending_data_has_finite_deadline");
         let g = Ghost { base: 0, stream: [0; U], fin_at: U, r: 0, rxlen: 0, fin_rcvd: false, wnd: 0, app: [0; TX], txread: 0, txlen: 0,
                         inflight: 1, una: iss, syn_unacked: true, fin_state: false, state: State::SynSent, now };
         let sb = any_peer_segment(&g);
@@ -1083,28 +1097,123 @@ pub(crate) mod v_socket_tcp {
         match s.state {
             State::SynSent => {}
             State::Established => {
-                assert!(sb.control == TcpControl::Syn && acks_iss, "prop:c17_established_only_by_ack_of_own_isn");
-                assert!(s.remote_seq_no == TcpSeqNumber(sb.seq.wrapping_add(1)), "prop:c04_stream_starts_right_after_syn");
-                assert!(s.local_seq_no == TcpSeqNumber(iss.0.wrapping_add(1)), "prop:c01_snd_una_tracks_tx_queue");
+                crate::vassert!(sb.control == TcpControl::Syn && acks_iss, "prop:c17_established_only_by_ack_of_own_isn");
+                crate::vassert!(s.remote_seq_no == TcpSeqNumber(sb.seq.wrapping_add(1)), "prop:c04_stream_starts_right_after_syn");
+                crate::vassert!(s.local_seq_no == TcpSeqNumber(iss.0.wrapping_add(1)), "prop:c01_snd_una_tracks_tx_queue");
                 let want_mss = match sb.mss { Some(0) | None => DEFAULT_MSS, Some(m) => core::cmp::max(m as usize, MIN_REMOTE_MSS) };
-                assert!(s.remote_mss == want_mss, "prop:c05_mss_negotiated_with_floor");
+                crate::vassert!(s.remote_mss == want_mss, "prop:c05_mss_negotiated_with_floor");
             }
             State::SynReceived => {
-                assert!(sb.control == TcpControl::Syn && sb.ack.is_none(), "prop:c17_simultaneous_open_only_by_bare_syn");
-                assert!(s.poll_at(cx) != PollAt::Ingress, "prop:c02_pending_data_has_finite_deadline");
+                crate::vassert!(sb.control == TcpControl::Syn && sb.ack.is_none(), "prop:c17_simultaneous_open_only_by_bare_syn");
+                crate::vassert!(deadline_finite(&mut s, cx), "prop:c02_pending_data_has_finite_deadline");
             }
             State::Closed => {
-                assert!(sb.control == TcpControl::Rst && acks_iss, "prop:c17_handshake_reset_only_by_exact_rst_ack");
+                crate::vassert!(sb.control == TcpControl::Rst && acks_iss, "prop:c17_handshake_reset_only_by_exact_rst_ack");
             }
-            _ => assert!(false, "prop:c17_edge_in_rfc_diagram"),
+            _ => crate::vassert!(false, "prop:c17_edge_in_rfc_diagram"),
         }
-        assert!(s.rx_buffer.is_empty() && s.assembler.is_empty(), "prop:c04_no_data_accepted_from_syn");
+        crate::vassert!(s.rx_buffer.is_empty() && s.assembler.is_empty(), "prop:c04_no_data_accepted_from_syn");
         if let Some((_, rr)) = &reply {
-            assert!(sb.control != TcpControl::Rst, "prop:c11_no_reply_to_rst");
+            crate::vassert!(sb.control != TcpControl::Rst, "prop:c11_no_reply_to_rst");
         }
         kani::cover!(s.state == State::Established, "handshake completed");
         kani::cover!(s.state == State::SynReceived, "simultaneous open");
         kani::cover!(s.state == State::Closed, "connection refused");
+    }
+
+    // ------------------------------------------------------------------ receive-window scaling (rings > 64 KiB)
+    // A real handshake on a 128 KiB receive ring (shift 2), then one data segment anywhere in sequence space:
+    // nothing may be accepted beyond what the buffer can hold / what was advertised, no debug_assert fires.
+    const BIG: usize = 1 << 17;
+
+    fn big_ring_handshake(active: bool) {
+        tcp_env!(dev, iface, cx, now);
+        #[allow(static_mut_refs, unsafe_code)]
+        let big: &'static mut [u8] = unsafe {
+            static mut BIGBUF: [u8; BIG] = [0; BIG];
+            &mut BIGBUF[..]
+        };
+        let mut txs = [0u8; TX];
+        let mut s = Socket::new(SocketBuffer::new(big), SocketBuffer::new(&mut txs[..]));
+        crate::vassert!(s.remote_win_shift == 2, "prop:c05_window_shift_from_buffer_size");
+        let peer_scale: bool = kani::any();
+        let irs: i32 = kani::any();
+        let mut syn_win = 0u16;
+        let mut syn_ws: Option<u8> = None;
+        if active {
+            s.connect(cx, (IpAddress::Ipv4(REMOTE), RPORT), LPORT).unwrap();
+            let _ = s.dispatch(cx, |_cx, (_ip, r)| -> Result<(), ()> { syn_win = r.window_len; syn_ws = r.window_scale; Ok(()) });
+            let iss = s.local_seq_no;
+            let synack = TcpRepr {
+                src_port: RPORT, dst_port: LPORT, control: TcpControl::Syn, seq_number: TcpSeqNumber(irs),
+                ack_number: Some(sadd(iss, 1)), window_len: 1000, window_scale: if peer_scale { Some(0) } else { None },
+                max_seg_size: Some(1460), sack_permitted: false, sack_ranges: [None, None, None], timestamp: None, payload: &[],
+            };
+            let ipr = ip_for(&synack);
+            kani::assume(s.accepts(cx, &ipr, &synack));
+            let _ = s.process(cx, &ipr, &synack);
+            crate::vassert!(s.state == State::Established, "prop:c17_established_only_by_ack_of_own_isn");
+        } else {
+            s.listen(LPORT).unwrap();
+            let syn = TcpRepr {
+                src_port: RPORT, dst_port: LPORT, control: TcpControl::Syn, seq_number: TcpSeqNumber(irs),
+                ack_number: None, window_len: 1000, window_scale: if peer_scale { Some(0) } else { None },
+                max_seg_size: Some(1460), sack_permitted: false, sack_ranges: [None, None, None], timestamp: None, payload: &[],
+            };
+            let ipr = ip_for(&syn);
+            kani::assume(s.accepts(cx, &ipr, &syn));
+            let _ = s.process(cx, &ipr, &syn);
+            let _ = s.dispatch(cx, |_cx, (_ip, r)| -> Result<(), ()> { syn_win = r.window_len; syn_ws = r.window_scale; Ok(()) });
+        }
+        // (v) SYN windows are unscaled; the scale option is offered (active) or echoed only if the peer offered it
+        crate::vassert!(syn_win == 65535, "prop:c05_syn_window_unscaled");
+        crate::vassert!(syn_ws == (if active || peer_scale { Some(2) } else { None }), "prop:c05_window_scale_option_as_negotiated");
+        let shift = if peer_scale { 2 } else { 0 };
+        crate::vassert!(s.remote_win_shift == shift, "prop:c05_window_shift_only_if_peer_scales");
+        // what the peer was told it may send: the SYN window, unscaled
+        let nxt = TcpSeqNumber(irs.wrapping_add(1));
+        crate::vassert!(s.remote_seq_no == nxt && s.rx_buffer.is_empty(), "prop:c04_stream_starts_right_after_syn");
+        // one data segment (with the final ACK of the handshake for the passive side) anywhere
+        let seq: i32 = kani::any();
+        let payload: [u8; 4] = kani::any();
+        let seg = TcpRepr {
+            src_port: RPORT, dst_port: LPORT, control: TcpControl::None, seq_number: TcpSeqNumber(seq),
+            ack_number: Some(s.remote_last_seq), window_len: 1000, window_scale: None,
+            max_seg_size: None, sack_permitted: false, sack_ranges: [None, None, None], timestamp: None, payload: &payload[..],
+        };
+        let ipr = ip_for(&seg);
+        kani::assume(s.accepts(cx, &ipr, &seg));
+        let _ = s.process(cx, &ipr, &seg);
+        let off = seq.wrapping_sub(nxt.0);
+        // accepted bytes lie inside what was advertised (65535 from the SYN) and inside the buffer
+        let j = any_lt(BIG);
+        if s.assembler.verif_present(j) {
+            crate::vassert!(j < 65535, "prop:c04_no_byte_accepted_beyond_advertised_window");
+            crate::vassert!(off >= 0 && j >= off as usize && j < off as usize + 4, "prop:c04_only_segment_bytes_recorded");
+            let w = s.rx_buffer.get_unallocated(j, 1);
+            crate::vassert!(w.len() == 1 && w[0] == payload[j - off as usize], "prop:c04_out_of_order_bytes_equal_peer_stream");
+        }
+        if s.rx_buffer.len() > 0 {
+            crate::vassert!(off <= 0 && off > -4 && s.rx_buffer.len() == (4 + off) as usize, "prop:c04_in_order_bytes_only");
+            let k = any_lt(4);
+            kani::assume(k < s.rx_buffer.len());
+            let b = s.rx_buffer.get_allocated(k, 1);
+            crate::vassert!(b.len() == 1 && b[0] == payload[k + (-off) as usize], "prop:c01_rx_bytes_equal_peer_stream");
+        }
+        kani::cover!(s.rx_buffer.len() == 4, "in-order data accepted after the handshake");
+        kani::cover!(!s.assembler.is_empty(), "out-of-order data recorded");
+    }
+
+    // @harness props=C04,C05,C01,C03 cfg=KT tier=q to=1200 mem=10 unwind=8 opts=nomem covers=2 funcs=tcp::Socket::new;tcp::Socket::connect;tcp::Socket::dispatch;tcp::Socket::process bounds=128_KiB_receive_ring_(window_shift_2);_real_active_open;_peer_with_or_without_window_scaling;_one_4-byte_segment_at_any_sequence_number
+    #[kani::proof]
+    pub(crate) fn tcp_big_ring_active() {
+        big_ring_handshake(true);
+    }
+
+    // @harness props=C04,C05,C01,C03 cfg=KT tier=q to=1200 mem=10 unwind=8 opts=nomem covers=2 funcs=tcp::Socket::new;tcp::Socket::listen;tcp::Socket::dispatch;tcp::Socket::process bounds=128_KiB_receive_ring_(window_shift_2);_real_passive_open;_peer_with_or_without_window_scaling;_one_4-byte_segment_at_any_sequence_number
+    #[kani::proof]
+    pub(crate) fn tcp_big_ring_passive() {
+        big_ring_handshake(false);
     }
 
     // @harness props=C01,C17 kind=mustfail cfg=KT tier=q to=900 mem=8 unwind=8 opts=nomem
@@ -1121,6 +1230,6 @@ pub(crate) mod v_socket_tcp {
         let ip_repr = ip_for(&repr);
         kani::assume(s.accepts(cx, &ip_repr, &repr));
         let _ = s.process(cx, &ip_repr, &repr);
-        assert!(s.state == g.state, "prop:deliberately_false_state_never_changes");
+        crate::vassert!(s.state == g.state, "prop:deliberately_false_state_never_changes");
     }
 }
